@@ -346,7 +346,7 @@ def _discharge_idx(i):
             try:
                 # without a model the witness builder still yields the case description (shape, route, operation): a candidate that the
                 # replay harness tries on the real code -- only a reproduced failure is reported as a violation with an input
-                fail["witness"] = wf(ModelEval(model)) if model is not None else wf(lambda x, default=None: default)
+                fail["witness"] = _jsdeep(wf(ModelEval(model)) if model is not None else wf(lambda x, default=None: default))
                 if model is None and d["status"] != "refuted":
                     fail["candidate_only"] = True
             except Exception as e:
@@ -466,6 +466,17 @@ def _js(x):
         return x
     except Exception:
         return repr(x)
+
+
+def _jsdeep(x):
+    """a witness as plain JSON data (enum members become their value, anything else unpicklable its repr)"""
+    if isinstance(x, dict):
+        return {str(k): _jsdeep(v) for k, v in x.items()}
+    if isinstance(x, (list, tuple)):
+        return [_jsdeep(v) for v in x]
+    if hasattr(x, "value") and hasattr(x, "name") and hasattr(x, "cls"):
+        return _jsdeep(getattr(x, "value"))
+    return _js(x)
 
 
 def load_known():
